@@ -57,7 +57,10 @@ func (g *gen) textAlpha() []byte {
 var numToks = []string{"0", "7", "12", "-3", "+4", "3.5", "0.25", ".5", "5.", "1000000", "00012", "-0", "12.125",
 	"99999999999999999999", "0.1", "2.675", "-77.001", "1", "2", "42"}
 var numSeps = []string{" ", "\n", "\t", "  ", " \n ", "\n\n", ",", " "}
-var numJunk = []string{"a", "z", ",", "-", "+", ".", "-.", "+a", "@", "b c", "", "\r"}
+// junk next to numerals: also what Go's own numeral syntax would have taken ("p" exponents, "_",
+// "0x", inf/nan) and bytes >= 0x80; no "e"/"E" (the models leave the exponent part out)
+var numJunk = []string{"a", "z", ",", "-", "+", ".", "-.", "+a", "@", "b c", "", "px", "p5", "_000", "_", "x1F", "pm",
+	"nan", "inf", "Inf", "\xc3\xa9", "\xff", "\r"}
 
 func (g *gen) numText(n int) []byte {
 	var b []byte
@@ -215,6 +218,14 @@ func (g *gen) count() int64 {
 }
 
 func (g *gen) rfmt() Fmt {
+	f := g.rfmt0()
+	if f.K != "count" && g.r.Chance(25) {
+		f.Long = true // "*line", "*all", "*number"
+	}
+	return f
+}
+
+func (g *gen) rfmt0() Fmt {
 	if g.flavour == "num" {
 		switch g.r.Pick(50, 20, 20, 10) {
 		case 0:
@@ -315,7 +326,12 @@ func (g *gen) note(o Op) {
 		}
 		g.ts = append(g.ts, trk{open: true, rd: modeRd(o.Mode), wr: modeWr(o.Mode)})
 		return
-	case "snap", "iolines":
+	case "snap", "iolines", "stdclose":
+		return
+	case "lclose":
+		for i := range g.ts {
+			g.ts[i].open, g.ts[i].last, g.ts[i].stale = false, lNone, false
+		}
 		return
 	}
 	t := &g.ts[o.H]
@@ -422,6 +438,10 @@ func (g *gen) handleOp() {
 	default:
 		o = Op{T: "next", H: g.cur, K: []int{1, 1, 2, 3, 64}[g.r.Intn(5)]}
 	}
+	if (o.T == "lines" || o.T == "next") && len(g.ts) > 1 && g.r.Chance(25) {
+		a := g.r.Intn(len(g.ts)) // some handle passed to the iterator: it has to ignore it
+		o.Arg = &a
+	}
 	if g.disc && t.open {
 		switch o.T {
 		case "read", "lines", "next":
@@ -492,7 +512,9 @@ func (g *gen) history(maxOps int) Input {
 				g.openOp()
 			}
 		default:
-			switch r.Pick(84, 4, 5, 5, 2) {
+			switch r.Pick(84, 4, 5, 5, 2, 1) {
+			case 5:
+				g.emit(Op{T: "stdclose", Which: []string{"stdout", "stderr"}[r.Intn(2)]})
 			case 0:
 				g.handleOp()
 			case 1:
@@ -518,14 +540,19 @@ func (g *gen) history(maxOps int) Input {
 			}
 		}
 	}
-	for i, t := range g.ts {
-		if t.open {
-			g.push(Op{T: "close", H: i})
+	if r.Chance(35) {
+		// the script ends with its files open: closing the state closes (and flushes) them
+		g.push(Op{T: "lclose"})
+	} else {
+		for i, t := range g.ts {
+			if t.open {
+				g.push(Op{T: "close", H: i})
+			}
 		}
-	}
-	for i, t := range g.ts {
-		if t.iter && r.Chance(50) {
-			g.push(Op{T: "next", H: i, K: []int{1, 2, 64}[r.Intn(3)]})
+		for i, t := range g.ts {
+			if t.iter && r.Chance(50) {
+				g.push(Op{T: "next", H: i, K: []int{1, 2, 64}[r.Intn(3)]})
+			}
 		}
 	}
 	g.emit(Op{T: "snap"})
